@@ -50,6 +50,9 @@ def leaf(draw, name, long_running=False, max_clients=4, errors=False):
         spec["requests"] = draw(request_specs(base=draw(st.sampled_from([0.25, 0.5, 1.0])), errors=errors))
         for q in spec["requests"]:
             q["wire"][0][1] = max(q["wire"][0][1], 0.25)
+        if draw(st.integers(0, 4)) == 0:
+            # its runner can report completion itself (wait-for-transform, custom runners) but is nowhere near done: it is ended like any other
+            spec["op_type"] = "sim-op-completing"
         return spec
     if time_based:
         spec["mode"] = "time"
